@@ -107,13 +107,41 @@ def run(ctx):
         if rm is not None and not skip and ri != rm:
             dis += 1
             ctx.fail('corr', c, impl=ri, model=rm, expect=rm, note='implementation differs from the Lean model (OP suite)')
+    # the same protocol through the whole pipeline, also on a CLONE of the built data object (`simpleclone`: programs are
+    # commonly built once and executed on clones): one undefined combination per operator x stores x host modes
+    if not ctx.replay:
+        import progsuite
+        PROGS = ['5 + "abc"', '"a" - 1', '() * 2', '(1 2) / 3', ':a // 1', '"x" % 2', '1 ** "a"', '"a" & 1', '1 | "a"', '"a" ^ 1', '"a" << 1', '1 >> "a"',
+                 '"a" .. 1', '"a" >.. 5', '"a" ..< 5', '() >..< 1', '1 . 2', '5 <~ 5', '5 ~> 6', '-- "a"', '++ "a"', '! "a"', '_. 5', '5 ._', '5 .|', '#5 ~# #5', '5 ~# (1 = 2)',
+                 '$ + (1, 2)', '{ $ + "a" } <~ 3']
+        pc = []
+        for k, src in enumerate(PROGS):
+            for st in ('simple', 'basic', 'simpleclone'):
+                for host in progsuite.HOSTS:
+                    pc.append(['RUN', f'pg{k}{st[0]}{st[-1]}{progsuite.HOSTS.index(host)}', st, vlib.esc(src), '(i 9)', host])
+        pr = vlib.run_impl(pc, 'c08prog', per_case_s=5.0)
+        for c in pc:
+            pi = progsuite.parse_impl(pr.get(c[1]))
+            ctx.distinct.add(('prog', c[2], c[3], c[5]))
+            src = vlib.unesc(c[3])
+            if pi['kind'] != 'ok':
+                ctx.fail('oracle', c, impl=pr.get(c[1]), expect='unit or the host value', note=f'an undefined combination failed the program {src!r} on {c[2]}')
+                continue
+            calls = [x for x in (pi.get('log') or '').split(';') if x.startswith('defer(')]
+            host = c[5]
+            want_calls = 0 if host == '-' else 1
+            want_val = '(i 777)' if host.startswith('d1') else 'U'
+            if len(calls) != want_calls or pi['value'] != want_val:
+                ctx.fail('oracle', c, impl=pr.get(c[1]), expect=f'{want_val} after {want_calls} offer(s) to the host', note=f'undefined combination in {src!r} on {c[2]}: {len(calls)} offer(s), value {pi["value"]}')
+        ctx.evaluations += len(pc)
+        ctx.suites['RUN.undefined-in-programs (incl. clone of the data object)'] = len(pc)
     ctx.oblige('suite OP.* complete type-pair matrix (implementation = Lean model)', 'suite', dis == 0 and drv_ok, f'{dis} disagreement(s)')
     ctx.exhaustive = True
     ctx.rule = ('complete matrix: 30 binary + 14 unary instructions x every ordered pair of 19 value types x all representative values per type (empty, singleton, typical, nested) '
                 'plus the cast matrix (ApplyType: ~330 left representatives incl. slices of every sequence kind, float / descending / i32::MAX ranges, multi-byte text x 21 target types, each as a Type value and as a value of that type) '
                 'x {SimpleGarnishData, BasicGarnishData} x callback {absent, declining, accepting}; for every combination Spec/Defined.lean (casts: Spec.castDefined) leaves undefined the oracle demands exactly one defer_op call with the operation and both operands in source order, '
                 'unit when declined, the host value unchanged when accepted, exactly one result, no error; distinct_nontrivial = distinct undefined (instr, ltype, rtype, store, mode).')
-    ctx.suites = {'OP.matrix': len(cases), 'undefined_cases': n_undef, 'operand_not_buildable_on_simple': n_unbuildable}
+    ctx.suites.update({'OP.matrix': len(cases), 'undefined_cases': n_undef, 'operand_not_buildable_on_simple': n_unbuildable})
     ctx.distribution = {'undefined_cases_per_instruction': per_instr}
     for c, ri, rm, skip in rows[:: max(1, len(rows) // 6)][:6]:
         ctx.sample({'case': c[2:], 'impl': ri, 'model': rm}, cap=80)
